@@ -167,6 +167,14 @@ impl Arc {
     }
 }
 
+/// The access that comes later in the execution path.
+fn later<'a>(a: Option<&'a Access>, b: Option<&'a Access>) -> Option<&'a Access> {
+    match (a, b) {
+        (Some(a), Some(b)) => Some(if a.path_id() >= b.path_id() { a } else { b }),
+        (a, b) => a.or(b),
+    }
+}
+
 impl State {
     pub(super) fn check_for_leaks(&self, index: usize) {
         if self.ref_cnt != 0 {
@@ -185,7 +193,9 @@ impl State {
         match action {
             // RefIncs are not dependent w/ RefDec, only inspections
             Action::RefInc => self.last_ref_inspect.as_ref(),
-            Action::RefDec => self.last_ref_dec.as_ref(),
+            // RefDecs (drop, `get_mut`, `try_unwrap`) are dependent with other
+            // RefDecs and with inspections of the count.
+            Action::RefDec => later(self.last_ref_dec.as_ref(), self.last_ref_inspect.as_ref()),
             Action::Inspect => match self.last_ref_modification {
                 Some(RefModify::RefInc) => self.last_ref_inc.as_ref(),
                 Some(RefModify::RefDec) => self.last_ref_dec.as_ref(),
